@@ -27,11 +27,15 @@ inline std::string TrespassPath(Rng & r, int hosts)
 }
 inline Plan Gen(uint64_t seed)
 {
+   gen::ClauseModeScope clauseMode(seed);
    Rng cfg(seed, "config"), wl(seed, "workload"), fl(seed, "faults");
    Plan p;
    const int clients = 2 + (int) cfg.below(4), hosts = 1 + (int) cfg.below(3);
    const bool faultFree = cfg.oneIn(5);
-   p.push_back("cfg prop=C06 clients=" + I(clients) + " hosts=" + I(hosts) + " faultfree=" + I(faultFree));
+   // partial privileges: in one run in four the server grants every session of ONE host the ban privileges (add-bans and/or remove-bans) but NOT the kick privilege;
+   // such a session sending PR_COMMAND_KICK is still "a privileged command code sent without [that] privilege" and must be denied (bans themselves only affect accepts)
+   std::string pp; {Rng pr(seed, "partialpriv"); if (pr.oneIn(4)) pp = " pphost=" + I(pr.below((uint32_t) hosts)) + " ppbits=" + I(2 + 2*(int) pr.below(3));}   // bits: 2 = add-bans, 4 = remove-bans, 6 = both
+   p.push_back("cfg prop=C06 clients=" + I(clients) + " hosts=" + I(hosts) + " faultfree=" + I(faultFree) + pp);
    GenState g(clients, hosts);
    for (int c=0; c<clients; c++) if ((c < 2)||(cfg.pct(75))) GenConnect(p, g, cfg, fl, c, faultFree);
    p.push_back("step 2");
@@ -90,6 +94,15 @@ inline void Exec(const Plan & plan, RunResult & res)
 {
    srv::Interp in(plan, res);
    in.sim.orc.isolation = true; in.sim.orc.marks = true; in.sim.orc.mirror = true;   // mirror: "every subscriber of those nodes is told"
+   {
+      Cfg cfg(plan); const int bits = (int) cfg.i("ppbits", 0) & 6;   // never the kick bit (1), never "all" (priv3)
+      if (bits)
+      {
+         const std::string host = "h" + I(cfg.i("pphost", 0));
+         for (int b=1; b<=2; b++) if (bits & (1<<b)) {char key[16]; snprintf(key, sizeof(key), "priv%i", b); (void) in.sim.server->GetCentralState().AddString(key, host.c_str());}
+         res.stats.inc("runs_with_partially_privileged_host");
+      }
+   }
    in.Run();
    const Stats & st = res.stats;
    auto get = [&](const char * k) {auto it = st.c.find(k); return (it == st.c.end()) ? (uint64_t) 0 : it->second;};
